@@ -573,7 +573,12 @@ func c18Timeouts(c *sim.Case) {
 					s.sig, s.viol = "dropped-inside-own-limits"+other, fmt.Sprintf("session of filter %s (abs=%v idle=%v) answered %v %.2fs after creation, %.2fs after last use", s.f.name, abs, idle, r, t1.Sub(s.cLo).Seconds(), t1.Sub(s.uLo).Seconds())
 					s.dead = true
 				case r.OK:
-					s.uLo, s.uHi, s.live = t0, t1, true
+					// (a use inside a tolerance band was honoured, but whether it still extended the idle limit is the
+					// store's business: only a use that certainly fell inside both limits moves the lower bound)
+					if must {
+						s.uLo = t0
+					}
+					s.uHi, s.live = t1, true
 				default:
 					s.dead, s.gone = true, true
 				}
